@@ -28,4 +28,5 @@ package fx
 //@   ghost at arm ctx.Done(): armT = true
 //@   call WithTimeout#0: assert arg_timeout == timeout
 //@   ensures implies(armT, result == ctxErr[ctx])
+//@   ensures ctxTimeout[ctx] == timeout && ctxParent[ctx] == parentCtx
 //@   loop 0: invariant true
